@@ -88,20 +88,14 @@ Qed.
 Lemma letter_lt128 : forall c, is_letter c = true -> c < 128.
 Proof. intros c H. unfold is_letter, is_upper, is_lower in H. lia. Qed.
 
-(* every code the reader can produce: 0..15, 30, and 32 only for the byte 96 (backquote) *)
-Lemma code_range_byte : forall c, keep c = true -> c <> 96 -> cnv c <= 15 \/ cnv c = 30.
+(* every code the reader can produce: 0..15 or 30 *)
+Lemma code_range_byte : forall c, keep c = true -> cnv c <= 15 \/ cnv c = 30.
 Proof.
-  intros c H Hn. pose proof (keep_lt128 c H) as Hc.
-  assert (E : (negb (keep c) || (c =? 96) || (cnv c <=? 15) || (cnv c =? 30)) = true).
-  { apply (all_lt128 (fun c => negb (keep c) || (c =? 96) || (cnv c <=? 15) || (cnv c =? 30))); [vm_compute; reflexivity | exact Hc]. }
-  rewrite H in E. simpl in E. apply N.eqb_neq in Hn. rewrite Hn in E. simpl in E.
+  intros c H. pose proof (keep_lt128 c H) as Hc.
+  assert (E : (negb (keep c) || (cnv c <=? 15) || (cnv c =? 30)) = true).
+  { apply (all_lt128 (fun c => negb (keep c) || (cnv c <=? 15) || (cnv c =? 30))); [vm_compute; reflexivity | exact Hc]. }
+  rewrite H in E. simpl in E.
   apply orb_prop in E. destruct E as [E|E]; [left; apply N.leb_le; exact E | right; apply N.eqb_eq; exact E].
-Qed.
-
-Lemma code_range_byte_all : forall c, keep c = true -> cnv c <= 15 \/ cnv c = 30 \/ cnv c = 32.
-Proof.
-  intros c H. destruct (N.eq_dec c 96) as [->|Hn]; [right; right; reflexivity|].
-  destruct (code_range_byte c H Hn); auto.
 Qed.
 
 Lemma letter_keep : forall c, is_letter c = true -> keep c = true.
@@ -175,17 +169,10 @@ Qed.
 Lemma convert_drops : forall a c b, keep c = false -> convert (a ++ c :: b) = convert (a ++ b).
 Proof. intros. rewrite !convert_app. unfold convert at 2. simpl. rewrite H. reflexivity. Qed.
 
-Lemma code_range_convert : forall s c, In c (convert s) -> ~ In 96 s -> c <= 15 \/ c = 30.
-Proof.
-  intros s c H Hn. unfold convert in H. apply in_map_iff in H. destruct H as [b [Hb Hin]].
-  apply filter_In in Hin. destruct Hin as [Hin Hk]. subst c. apply code_range_byte; auto.
-  intro E. subst b. contradiction.
-Qed.
-
-Lemma code_range_convert_all : forall s c, In c (convert s) -> c <= 15 \/ c = 30 \/ c = 32.
+Lemma code_range_convert : forall s c, In c (convert s) -> c <= 15 \/ c = 30.
 Proof.
   intros s c H. unfold convert in H. apply in_map_iff in H. destruct H as [b [Hb Hin]].
-  apply filter_In in Hin. destruct Hin as [Hin Hk]. subst c. apply code_range_byte_all; auto.
+  apply filter_In in Hin. destruct Hin as [Hin Hk]. subst c. apply code_range_byte; auto.
 Qed.
 
 (* what extraction shows for a stretch of sequence bytes, on the whole byte range *)
@@ -529,18 +516,15 @@ Proof.
 Qed.
 
 Theorem code_range_parse : forall text rs id codes c,
-  parse text = Ok rs -> In (id, codes) rs -> In c codes ->
-  (c <= 15 \/ c = 30 \/ c = 32) /\ (~ In 96 text -> c <= 15 \/ c = 30).
+  parse text = Ok rs -> In (id, codes) rs -> In c codes -> c <= 15 \/ c = 30.
 Proof.
   intros text rs id codes c P Hin Hc. rewrite parse_exact in P.
   destruct (existsb nameless_with_bases (groups (lines text))) eqn:E.
   - rewrite deliver_err in P; [discriminate | exact E].
   - rewrite deliver_ok in P; [|exact E]. inversion P; subst rs. clear P.
-    apply in_map_iff in Hin. destruct Hin as [[h s] [Eq Hin]]. apply filter_In in Hin. destruct Hin as [Hin _].
-    unfold as_contig in Eq. inversion Eq; subst. cbn [snd] in Hc. split.
-    + apply (code_range_convert_all s). exact Hc.
-    + intro N96. apply (code_range_convert s); [exact Hc|]. intro X. apply N96.
-      eapply groups_bytes; eauto.
+    apply in_map_iff in Hin. destruct Hin as [[h s] [Eq Hin]].
+    unfold as_contig in Eq. inversion Eq; subst. cbn [snd] in Hc.
+    apply (code_range_convert s). exact Hc.
 Qed.
 
 (* ================================================================== rendering *)
